@@ -558,13 +558,13 @@ func (server *SugarDB) adjustMemoryUsage(ctx context.Context) error {
 		// Remove random keys until we're below the max memory limit
 		// or there are no more keys remaining.
 		for {
-			// If there are no keys, return error
-			if len(server.store) == 0 {
+			// If there are no keys in the database, return error
+			if len(server.store[database]) == 0 {
 				err := errors.New("no keys to evict")
 				return fmt.Errorf("adjustMemoryUsage -> all keys random: %+v", err)
 			}
 			// Get random key in the database
-			idx := rand.Intn(len(server.store))
+			idx := rand.Intn(len(server.store[database]))
 			for db, data := range server.store {
 				if db == database {
 					for key, _ := range data {
@@ -600,7 +600,13 @@ func (server *SugarDB) adjustMemoryUsage(ctx context.Context) error {
 		for {
 			// Get random volatile key
 			server.keysWithExpiry.rwMutex.RLock()
-			idx := rand.Intn(len(server.keysWithExpiry.keys))
+			// If there are no keys with an expiry time in the database, return error
+			if len(server.keysWithExpiry.keys[database]) == 0 {
+				server.keysWithExpiry.rwMutex.RUnlock()
+				err := errors.New("no keys with expiry to evict")
+				return fmt.Errorf("adjustMemoryUsage -> volatile keys random: %+v", err)
+			}
+			idx := rand.Intn(len(server.keysWithExpiry.keys[database]))
 			key := server.keysWithExpiry.keys[database][idx]
 			server.keysWithExpiry.rwMutex.RUnlock()
 
